@@ -81,6 +81,16 @@ func (commitmentProof *CommitmentProof) Validate() error {
 			len(commitmentProof.RowProof.RowRoots),
 		)
 	}
+	for i, proof := range commitmentProof.SubtreeRootProofs {
+		if proof == nil {
+			return fmt.Errorf("the subtree root proof %d is empty", i)
+		}
+	}
+	for i, proof := range commitmentProof.RowProof.Proofs {
+		if proof == nil {
+			return fmt.Errorf("the row proof %d is empty", i)
+		}
+	}
 	return nil
 }
 
